@@ -34,6 +34,9 @@ static int g_mode = M_OFF;
 static int g_inited = 0;
 static int g_logfd = -1;
 static int g_sock = -1;
+static int g_threaded = 0;            /* tsched: one scheduler connection per thread */
+static __thread int t_sock = -1;
+static char g_sockpath[108];
 static long g_kill_at = -1;
 static long g_counter = 0;
 static char g_roots[8][PATH_MAX];
@@ -83,24 +86,52 @@ static int is_fifo(int fd) {
     return S_ISFIFO(st.st_mode);
 }
 
+static int cur_sock(void);
 static void sock_send(const char *s) {
     size_t n = strlen(s), o = 0;
+    int fd = cur_sock();
     while (o < n) {
-        ssize_t w = raw_write(g_sock, s + o, n - o);
+        ssize_t w = raw_write(fd, s + o, n - o);
         if (w <= 0) _exit(97);
         o += (size_t)w;
     }
 }
 static void sock_wait(char *buf, size_t cap) {
     size_t o = 0;
+    int fd = cur_sock();
     for (;;) {
         char c;
-        ssize_t r = raw_read(g_sock, &c, 1);
+        ssize_t r = raw_read(fd, &c, 1);
         if (r <= 0) _exit(98);
         if (c == '\n') break;
         if (o + 1 < cap) buf[o++] = c;
     }
     buf[o] = 0;
+}
+
+static int connect_sched(void) {
+    int s = socket(AF_UNIX, SOCK_STREAM | SOCK_CLOEXEC, 0);
+    if (s < 0) _exit(96);
+    struct sockaddr_un a;
+    memset(&a, 0, sizeof a);
+    a.sun_family = AF_UNIX;
+    snprintf(a.sun_path, sizeof a.sun_path, "%s", g_sockpath);
+    if (connect(s, (struct sockaddr *)&a, sizeof a) != 0) { syscall(SYS_close, s); _exit(96); }
+    int d = fcntl(s, F_DUPFD_CLOEXEC, 901);
+    syscall(SYS_close, s);
+    if (d < 0) _exit(96);
+    return d;
+}
+/* the scheduler connection of the calling thread (tsched) or of the process (sched) */
+static int cur_sock(void) {
+    if (!g_threaded) return g_sock;
+    if (t_sock < 0) {
+        t_sock = connect_sched();
+        char hello[96];
+        int l = snprintf(hello, sizeof hello, "HELLO %d %ld\n", (int)getpid(), (long)syscall(SYS_gettid));
+        raw_write(t_sock, hello, (size_t)l);
+    }
+    return t_sock;
 }
 
 static void init_once(void) {
@@ -130,6 +161,22 @@ static void init_once(void) {
         const char *k = getenv("VSHIM_KILL_AT");
         g_kill_at = (k && !strcmp(m, "inject")) ? atol(k) : -1;
         g_mode = !strcmp(m, "inject") ? M_INJECT : M_LOG;
+    } else if (!strcmp(m, "tsched")) {
+        /* thread-level control of one `copia sync …` process: every thread announces its calls on its own connection */
+        char cl[4096];
+        int fd = (int)syscall(SYS_openat, AT_FDCWD, "/proc/self/cmdline", O_RDONLY);
+        if (fd < 0) return;
+        ssize_t n = raw_read(fd, cl, sizeof cl - 1);
+        syscall(SYS_close, fd);
+        if (n <= 0) return;
+        cl[n] = 0;
+        const char *a1 = cl + strlen(cl) + 1;
+        if (a1 >= cl + n || strcmp(a1, "sync") != 0) return;
+        const char *sp = getenv("VSHIM_SOCK");
+        if (!sp || strlen(sp) >= sizeof g_sockpath) return;
+        strcpy(g_sockpath, sp);
+        g_threaded = 1;
+        g_mode = M_SCHED;
     } else if (!strcmp(m, "sched")) {
         /* only a `copia serve …` process is controlled */
         char cl[4096];
@@ -218,7 +265,7 @@ static void sched_done(const char *call, long ret, int err) {
 
 #define FD_EVENT(call, fd, size, flags, is_mut, count_fifo)                                      \
     char fp_[PATH_MAX]; fp_[0] = 0; int rel_ = 0;                                                 \
-    if (active_ && (fd) > 2 && (fd) != g_logfd && (fd) != g_sock) {                               \
+    if (active_ && (fd) > 2 && (fd) != g_logfd && (fd) != g_sock && !(g_threaded && (fd) >= 901)) {                               \
         fd_path(fd, fp_);                                                                        \
         rel_ = under_root(fp_);                                                                  \
         int fifo_ = 0;                                                                           \
